@@ -3,7 +3,7 @@
 use std::sync::Arc;
 
 use super::*;
-use crate::array::DataChunk;
+use crate::array::{ArrayImplValidExt, DataChunk};
 use crate::catalog::{ColumnId, TableRefId};
 use crate::storage::{Storage, Table, Transaction};
 use crate::types::ColumnIndex;
@@ -43,6 +43,12 @@ impl<S: Storage> InsertExecutor<S> {
         #[for_await]
         for chunk in child {
             let chunk = Evaluator::new(&expr).eval_list(&chunk?)?;
+            // a NULL must not reach a NOT NULL column (the disk engine would store it as 0)
+            for (col, array) in columns.iter().zip(chunk.arrays()) {
+                if !col.is_nullable() && !array.get_valid_bitmap().all() {
+                    return Err(ExecutorError::not_nullable());
+                }
+            }
             cnt += chunk.cardinality();
             txn.append(chunk).await?;
         }
